@@ -52,7 +52,7 @@ impl Property for C09 {
         }
     }
     fn rule(&self) -> &'static str {
-        "each case: a generated valid instance (0-6 variables, ids < 2^62 incl. sparse ones, objective of degree <= 3, 0-4 active and 0-3 already-removed constraints of degree <= 2 incl. constant and absent functions, non-contiguous constraint ids, hints, dependencies, metadata) passed through penalty_method() (even cases) or uniform_penalty_method() (odd cases). Observed: the returned ParametricInstance (constraints, removed constraints, parameters, objective polynomial compared coefficient by coefficient with the exact f + sum w_c*g_c^2 resp. f + w*sum g_c^2, carried-over fields) and with_parameters(w)+evaluate(x) at 2 weight vectors from {0,1,2,-1,1/2,3/4}. Non-trivial = at least one active constraint with a non-constant function; distinct = fingerprint of (instance, method)."
+        "each case: a generated valid instance (0-6 variables, ids < 2^62 incl. sparse ones, objective of degree <= 3, 0-4 active and 0-3 already-removed constraints of degree <= 2 incl. constant and absent functions, non-contiguous constraint ids, hints, dependencies, metadata; one in five recording parameter values of an earlier instantiation, one in six coming out of an earlier penalty -> with_parameters -> new variables -> restore history) passed through penalty_method() (even cases) or uniform_penalty_method() (odd cases). Observed: the returned ParametricInstance (constraints, removed constraints, parameters, objective polynomial compared coefficient by coefficient with the exact f + sum w_c*g_c^2 resp. f + w*sum g_c^2, carried-over fields) and with_parameters(w)+evaluate(x) at 2 weight vectors from {0,1,2,-1,1/2,3/4}. Non-trivial = at least one active constraint with a non-constant function; distinct = fingerprint of (instance, method)."
     }
     fn assumptions(&self) -> Vec<&'static str> {
         vec![
@@ -108,6 +108,14 @@ impl Property for C09 {
             rng.shuffle(&mut inst.constraints);
             mon.facet(&format!("exact-constraint-count:{target}"));
         }
+        // an instance that records parameter values of an earlier instantiation (ids below, among and
+        // above the variable ids): weight ids must still avoid every decision variable
+        if rng.chance(1, 5) {
+            let top = inst.decision_variables.iter().map(|v| v.id).max().unwrap_or(0);
+            let ids: Vec<u64> = (0..1 + rng.below(3)).map(|_| if rng.bool() { rng.below(top.saturating_add(4).max(4)) } else { top.saturating_add(1 + rng.below(3)) }).collect();
+            inst.parameters = Some(parameters(ids.into_iter().map(|i| (i, small(rng)))));
+            mon.facet("instance-records-earlier-parameters");
+        }
         // history: the instance comes out of an earlier penalty-method pipeline (stale records of the
         // first application are still attached to restored constraints)
         if k % 6 == 4 {
@@ -155,7 +163,10 @@ fn history_instance(rng: &mut Rng, inst: &v1::Instance) -> Option<v1::Instance> 
                 restored += 1;
             }
         }
-        i2.parameters = None;
+        // the weights of the first application stay recorded on the instance in half of the histories
+        if rng.bool() {
+            i2.parameters = None;
+        }
         Ok(i2)
     });
     match r {
